@@ -450,7 +450,7 @@ static int do_replay() {
   printf("replay %s mode=%s build=n%d tape=%zu bytes\n", prop.c_str(), mode.c_str(), build, t.size());
   std::string ef = O.tmp + "/replay.err";
   Verdict v = run_child(P->modes[mi], mi, t, true, ef);
-  if (v.kind == 2) { printf("FAIL clause=%s: %s\n", v.clause.c_str(), v.msg.c_str()); std::string e = read_file(ef, 6000); fputs(e.c_str(), stdout); }
+  if (v.kind == 2) { printf("FAIL clause=%s: %s\n", v.clause.c_str(), v.msg.c_str()); std::string e = read_file(ef, 6000); size_t cut = 0; for (int l = 0; l < 14 && cut != std::string::npos; l++) cut = e.find('\n', cut + 1); fputs(e.substr(0, cut).c_str(), stdout); printf("\n"); }
   printf("RESULT %s clause=%s\n", v.kind == 0 ? "pass" : "fail", v.clause.c_str());
   return v.kind == 0 ? 0 : 1;
 }
